@@ -112,21 +112,26 @@ C12Says(in, out) ==
 (*   replace   returns a new response object                               *)
 (*   stop      returns the (marked) response and stops the chain           *)
 (*   stopnil   returns nil and stops the chain                             *)
+(*   nilpass   returns nil WITHOUT signalling stop: the chain goes on and  *)
+(*             the next handler is handed nil (no built-in handler does    *)
+(*             that; "modify"/"stop" leave a nil response nil)             *)
 (* A response is [id, marks]: id 0 is the base reply, id i the object      *)
 (* created by handler i.                                                   *)
 (***************************************************************************)
-Behaviours == {"pass", "modify", "replace", "stop", "stopnil"}
+Behaviours == {"pass", "modify", "replace", "stop", "stopnil", "nilpass"}
 Nil == [id |-> -1, marks |-> << >>]
 Base == [id |-> 0, marks |-> << >>]
+Mark(r, i) == IF r = Nil THEN Nil ELSE [r EXCEPT !.marks = Append(@, i)]
 
 RECURSIVE Run(_, _, _, _)
 Run(bs, i, cur, saw) ==
   IF i > Len(bs) THEN [invoked |-> Len(bs), out |-> cur, saw |-> saw]
   ELSE LET b == bs[i]  s2 == Append(saw, cur) IN
     CASE b = "pass"    -> Run(bs, i + 1, cur, s2)
-      [] b = "modify"  -> Run(bs, i + 1, [cur EXCEPT !.marks = Append(@, i)], s2)
+      [] b = "modify"  -> Run(bs, i + 1, Mark(cur, i), s2)
+      [] b = "nilpass" -> Run(bs, i + 1, Nil, s2)
       [] b = "replace" -> Run(bs, i + 1, [id |-> i, marks |-> << >>], s2)
-      [] b = "stop"    -> [invoked |-> i, out |-> [cur EXCEPT !.marks = Append(@, i)], saw |-> s2]
+      [] b = "stop"    -> [invoked |-> i, out |-> Mark(cur, i), saw |-> s2]
       [] b = "stopnil" -> [invoked |-> i, out |-> Nil, saw |-> s2]
 RunChain(bs) == Run(bs, 1, Base, << >>)
 
@@ -136,9 +141,9 @@ FirstStop(bs) == IF \E i \in 1..Len(bs) : IsStop(bs[i])
                  ELSE Len(bs)
 \* what handler i returns when given r
 Returns(b, i, r) == CASE b = "pass" -> r
-                      [] b \in {"modify", "stop"} -> [r EXCEPT !.marks = Append(@, i)]
+                      [] b \in {"modify", "stop"} -> Mark(r, i)
                       [] b = "replace" -> [id |-> i, marks |-> << >>]
-                      [] b = "stopnil" -> Nil
+                      [] b \in {"stopnil", "nilpass"} -> Nil
 
 \* C13, as stated, about a run r of the chain bs
 C13Says(bs, r) ==
